@@ -26,6 +26,8 @@ func main() {
 	replay := flag.String("replay", "", "print the findings recorded in a replay file and re-run the property")
 	list := flag.Bool("list", false, "list registered properties")
 	opsFlag := flag.Bool("ops", false, "debug: dump the bucket operation table")
+	patch := flag.String("patch", "", "analyse /repo with this unified diff applied through a go/packages overlay (scratch copies; /repo is not modified)")
+	evDir := flag.String("evidence-dir", "", "write evidence/replay files here instead of <verif>/evidence")
 	flag.Parse()
 
 	if *list {
@@ -57,7 +59,16 @@ func main() {
 	}
 
 	t0 := time.Now()
-	p, err := an.Load(*repo, nil)
+	var overlay map[string][]byte
+	if *patch != "" {
+		var err error
+		overlay, err = an.OverlayFromPatch(*repo, *patch)
+		if err != nil {
+			fmt.Fprintf(os.Stderr, "mwcheck: %v\n", err)
+			os.Exit(3)
+		}
+	}
+	p, err := an.Load(*repo, overlay)
 	if err != nil {
 		fmt.Fprintf(os.Stderr, "mwcheck: cannot analyse %s: %v\n", *repo, err)
 		os.Exit(2)
@@ -81,6 +92,7 @@ func main() {
 	}
 	c := report.New(p, *id, *tier, seed, verifDir)
 	c.Start = t0
+	c.EvidenceDir = *evDir
 	c.Explain = ch.Explain
 	c.NotDecided = ch.NotDec
 	func() {
